@@ -40,6 +40,8 @@ def p_nodes(nodes, opts=None):
 def p_node(n, opts=None):
     t = n["t"]
     if t == "text":
+        if n.get("sup") and opts and opts.get("super_for") == n["sup"]:
+            return "{{ block.super }}"  # C10: this text is the parent block's content, referred to from the child block
         return n["s"]
     if t == "elem":
         if n.get("void"):
